@@ -56,6 +56,10 @@ def run_shard(spec, rec):
             run_case({"kind": "parse", "pseed": rng.randrange(10 ** 9), "n": n}, rec)
             continue
         cands = [chr(ord("A") + j) for j in range(n)]
+        # identifiers whose concatenations are ambiguous ("1"+"12" == "11"+"2") in a third of the non-RAIRE cases
+        idmap = None
+        if kind not in ("raire", "raire_minus_one") and rng.random() < 0.5:
+            cands = ["1", "2", "3", "11", "12", "21"][:n]
         wo, el = [], []
         winner = cands[0]
         if kind in ("raire", "raire_minus_one"):
@@ -89,6 +93,12 @@ def run_shard(spec, rec):
             wo, el = random_tuples(rng, cands, rng.randint(0, n))
             a, b = rng.sample(cands, 2)
             wo += [[a, b, False], [b, a, True]]
+        if kind in ("raire", "raire_minus_one") and rng.random() < 0.5:
+            ren = dict(zip(cands, ["1", "2", "3", "11", "12", "21", "112"]))
+            cands = [ren[c] for c in cands]
+            winner = ren[winner]
+            wo = [[ren[l], ren[w], p] for l, w, p in wo]
+            el = [[ren[c], sorted(ren[e] for e in E_), p] for c, E_, p in el]
         roots = [c for c in cands if c != winner]
         run_case({"kind": "tree", "set": kind, "cands": cands, "winner": winner, "root": rng.choice(roots),
                   "WOLosers": wo, "IRVElims": el}, rec)
